@@ -202,6 +202,10 @@ def r_drop(ctx, model):
     sc.zero_some = {f"X{order.index(s)}" for s in ("c24", "c56")}
     res = run_fill(model, sc, ctx)
     got = set(res[1].cols) if res[0] == "ok" else set()
+    ctx.check(not sc.bad_vanish_tests, "'vanishing' means |value| <= drop tolerance at every volume", w, expected="allclose(col, 0, atol) or an equivalent spelling",
+              found="; ".join(sorted(set(sc.bad_vanish_tests))[:3]) or "canonical",
+              explanation="the omission test is not the magnitude of the component at every volume (e.g. |max(x)|): a symmetry-generated component that is "
+                          "negative, or zero at a single volume, disappears from the filled table", key="drop.form")
     ctx.check(got == want, "a component that is zero at one volume but not at all is kept", w, expected=str(sorted(want)), found=str(sorted(got)),
               explanation="a component is omitted as soon as it vanishes at a single volume: the filled table no longer holds the invariant tensor at every volume",
               key="drop.partial")
